@@ -105,7 +105,7 @@ def extra_checks(work, tier, rng):
     if exe is None:
         return [{"kind": "tie", "what": "harness-build", "msg": "ThreadSanitizer harness: " + log[-2000:]}]
     ops = 100000 if tier == "thorough" else 20000
-    reader_counts = [1, 2, 4, 8] if tier == "thorough" else [1, 3]
+    reader_counts = [1, 2, 4, 8] if tier == "thorough" else [1, 4]   # 4: two producers and TWO consumers on the optional
     env = dict(os.environ, TSAN_OPTIONS="halt_on_error=1:exitcode=66:report_signal_unsafe=0")
     runs = 0
     races = {}
